@@ -666,3 +666,42 @@ spec("C15", jobs=c15_jobs,
      rule="identity: 66 blocks covering 65 607 seeds x 64 outputs; history: every sequence of prior calls up to the bound x 2 seeds; "
           "threads: every schedule within the preemption bound; distinct_nontrivial = distinct outcome signatures",
      assumptions=["hook H2's pre-draw callback is the only scheduling point inside a sampler"])
+
+
+# ----------------------------------------------------------------------------- C19
+def c19_jobs(tier):
+    def j(name, cfg="asan", bmax=2, workers=None, **o):
+        d = dict(name=name, harness="c19_experiment", cfg=cfg, opts=o, bound_min=0, bound_max=bmax, deadline=1500,
+                 crash_is_violation=True, recycle=500)
+        if workers:
+            d["workers"] = workers
+        return d
+    b = 3 if tier == "quick" else 4
+    jobs = [
+        dict(j("w1-size24", bmax=0, size=24, mode="sched"), opts=dict(workers=1, size=24, mode="sched")),
+        dict(j("w2-size8", bmax=b, size=8), opts=dict(workers=2, size=8, mode="sched")),
+        dict(j("w2-size24", bmax=b), opts=dict(workers=2, size=24, mode="sched")),
+        dict(j("w2-size4096", bmax=b), opts=dict(workers=2, size=4096, mode="sched")),
+        dict(j("w3-size4096", bmax=b - 1), opts=dict(workers=3, size=4096, mode="sched")),
+        dict(j("w3-size24-O2", "rel", bmax=b - 1), opts=dict(workers=3, size=24, mode="sched")),
+        dict(j("w2-malloc", bmax=b), opts=dict(workers=2, size=24, mode="sched", alloc="malloc")),
+        dict(j("tsan-free-running", "tsan", bmax=0, workers=1), opts=dict(workers=3, size=4096, mode="free")),
+    ]
+    return jobs
+
+
+spec("C19", jobs=c19_jobs,
+     technique="preemption-bounded exhaustive schedule search of the real cimba_run_experiment worker threads under a serialising scheduler (every assignment of trials to workers and every completion order within the bound), plus a free-running ThreadSanitizer pass",
+     level_text="cimba_run_experiment is called for real with 1-3 worker threads (cmi_cpu_cores replaced at link time, pthread_create/"
+                "join wrapped so that the workers run under the scheduler), trial counts {1, W-1, W, W+2, 6} and element sizes "
+                "{8, 24, 4096}; the trial function counts executions per element, checks it was handed its own element, and runs "
+                "content selected by the element: a random-number probe (flip/gamma/geometric caches), a process/resource model with "
+                "same-instant ties, a trial that changes logger flags, a trial that leaves blocked processes and populated tag pools. "
+                "Every entry to and return from the trial function is a scheduling point: all assignments and completion orders up "
+                "to 2-3 preemptions are enumerated; every counter must be 1 and every result equal to a sequential reference run.",
+     level_note="Trusted: the scheduler (engine/vx_sched.c), the link-time wrapping, ThreadSanitizer for the free-running pass. "
+                "Atomicity inside the dispenser statement is visible only to the TSan pass (a race), not to the serialising scheduler.",
+     budget=dict(quick=900, thorough=5400),
+     rule="every schedule of the worker threads within the preemption bound, per (workers, trial count, element size); "
+          "distinct_nontrivial = distinct (trial count, preemptions) outcome classes",
+     assumptions=["scheduling points at trial entry/return only: the dispenser's fetch-and-add executes atomically between them"])
